@@ -41,9 +41,7 @@ func runC05(c *Ctx) {
 		c.Unresolved("R2.truth", "package keyid")
 		return
 	}
-	if tablesC05 != nil {
-		tablesC05(c)
-	}
+	tablesC05(c)
 	kid := w.NamedType(keyidPkg, "KeyID")
 	if kid == nil {
 		c.Unresolved("R2.truth", "type keyid.KeyID")
@@ -388,6 +386,3 @@ func extractOfV(v ssa.Value, idx int) ssa.Value {
 	}
 	return nil
 }
-
-// tablesC05 etc. are provided by tables1.go / tables2.go when present.
-var tablesC05 func(c *Ctx)
